@@ -358,6 +358,43 @@ class DictLiteralGet(ast.NodeTransformer):
         return node
 
 
+def get_found_to_membership(tree):
+    """P11  `x = T.get(k)` ; `if x is not None: return x`   ->   `if k in T: return T[k]`  for a module-level table T"""
+    globals_ = {n for st in tree.body for n in assigned_names(st)}
+    n_done = [0]
+
+    def do_block(block):
+        out = []
+        i = 0
+        while i < len(block):
+            st = block[i]
+            for _, b in list(_blocks(st)):
+                b[:] = do_block(b)
+            nxt = block[i + 1] if i + 1 < len(block) else None
+            if isinstance(st, ast.Assign) and len(st.targets) == 1 and isinstance(st.targets[0], ast.Name) and isinstance(st.value, ast.Call) \
+                    and isinstance(st.value.func, ast.Attribute) and st.value.func.attr == 'get' and isinstance(st.value.func.value, ast.Name) \
+                    and st.value.func.value.id in globals_ and not st.value.keywords and len(st.value.args) == 1 \
+                    and isinstance(nxt, ast.If) and not nxt.orelse and isinstance(nxt.test, ast.Compare) and len(nxt.test.ops) == 1 \
+                    and isinstance(nxt.test.ops[0], ast.IsNot) and isinstance(nxt.test.left, ast.Name) and nxt.test.left.id == st.targets[0].id \
+                    and isinstance(nxt.test.comparators[0], ast.Constant) and nxt.test.comparators[0].value is None \
+                    and len(nxt.body) == 1 and isinstance(nxt.body[0], ast.Return) and isinstance(nxt.body[0].value, ast.Name) \
+                    and nxt.body[0].value.id == st.targets[0].id:
+                tbl, key = st.value.func.value, st.value.args[0]
+                g = ast.If(test=ast.Compare(left=copy.deepcopy(key), ops=[ast.In()], comparators=[copy.deepcopy(tbl)]),
+                           body=[ast.Return(value=ast.Subscript(value=copy.deepcopy(tbl), slice=copy.deepcopy(key), ctx=ast.Load()))], orelse=[])
+                out.append(ast.copy_location(g, nxt))
+                n_done[0] += 1
+                i += 2
+                continue
+            out.append(st)
+            i += 1
+        return out
+    for fn in ast.walk(tree):
+        if isinstance(fn, ast.FunctionDef):
+            fn.body[:] = do_block(fn.body)
+    return n_done[0]
+
+
 def get_default_to_if(tree):
     """P10  `t = T.get(k, d)`  ->  `if k in T: t = T[k]` else: `t = d`  (dropped when d is t itself) for a module-level table T"""
     globals_ = {n for st in tree.body for n in assigned_names(st)}
@@ -992,6 +1029,7 @@ def normalise_source(src, rel, baseline, cf=None, lookups=True, renames=None):
     MembershipDisplays().visit(tree)
     if lookups:
         get_to_membership(tree)
+        get_found_to_membership(tree)
         get_default_to_if(tree)
         DictLiteralGet().visit(tree)
     if cf:
